@@ -861,7 +861,7 @@ func ruleAllElems(c *Ctx) *RuleResult {
 
 // S-BINARY: the infix handlers assemble the node the grammar says.
 func ruleBinaryNodes(c *Ctx) *RuleResult {
-	r := &RuleResult{Doc: "led: each binary operator's success return is a node of that operator's type whose children are exactly (the left node, the parsed right operand); nud/led return nothing else on success", Floor: 6}
+	r := &RuleResult{Doc: "led: each binary operator's success return is a node of that operator's type whose children are exactly (the left node, the parsed right operand); the prefix operators ! and & build their own node over the parsed operand", Floor: 8}
 	fn := c.A.Led
 	sw, _ := c.switchLabels(fn, c.A.TokT)
 	want := map[string]string{"tPipe": "ASTPipe", "tOr": "ASTOrExpression", "tAnd": "ASTAndExpression", "tEQ": "ASTComparator", "tDot": "ASTSubexpression|ASTValueProjection", "tFlatten": "ASTProjection"}
@@ -885,32 +885,87 @@ func ruleBinaryNodes(c *Ctx) *RuleResult {
 			continue
 		}
 		res := retResults(ret)
-		sh := c.nodeShapeOf(res[0])
-		if sh != nil && sh.Zero {
+		if sh := c.nodeShapeOf(res[0]); sh != nil && sh.Zero {
 			continue // error return
 		}
 		r.Instances++
 		key := fmt.Sprintf("led|%s|return@%s", cl.Name(), c.symStr(res[0], 0))
 		pos := c.pos(ret.Pos())
-		if sh == nil {
+		bns, ok := c.builtNodes(res[0])
+		if !ok {
 			r.viol(key, pos, fname(fn), "the "+cl.Name()+" handler can return a node it did not build here ("+c.symStr(res[0], 0)+"): the operator would vanish from the tree")
 			continue
 		}
-		okType := false
-		for _, t := range strings.Split(w, "|") {
-			if sh.NodeType == t {
-				okType = true
+		bad := ""
+		desc := ""
+		for _, bn := range bns {
+			sh := bn.shape
+			okType := false
+			for _, t := range strings.Split(w, "|") {
+				if sh.NodeType == t {
+					okType = true
+				}
+			}
+			// children: first is the left parameter (or, for flatten, a flatten node over it), second a parse result
+			okKids := sh.Arity == 2 && len(sh.Elems) == 2
+			if okKids {
+				okKids = c.valueIsParam(c.builtChild(bn, 0), nodeParam, cl.Labels[0].Name == "tFlatten") && c.valueIsParseResult(c.builtChild(bn, 1))
+			}
+			desc = sh.String()
+			if !(okType && okKids) {
+				bad = fmt.Sprintf("the %s handler returns %s (type ok=%v, children (left, right) ok=%v)", cl.Name(), sh, okType, okKids)
 			}
 		}
-		// children: first is the left parameter (or, for flatten, a flatten node over it), second a parse result
-		okKids := sh.Arity == 2 && len(sh.Elems) == 2
-		if okKids {
-			okKids = c.childIs(fn, res[0], 0, nodeParam, cl.Labels[0].Name == "tFlatten") && c.childIsParseResult(fn, res[0], 1)
-		}
-		if okType && okKids {
-			r.ok(key, pos, fname(fn), sh.String()+" with children (left, parsed right operand)")
+		if bad == "" {
+			r.ok(key, pos, fname(fn), desc+" with children (left, parsed right operand)")
 		} else {
-			r.viol(key, pos, fname(fn), fmt.Sprintf("the %s handler returns %s (type ok=%v, children (left, right) ok=%v)", cl.Name(), sh, okType, okKids))
+			r.viol(key, pos, fname(fn), bad)
+		}
+	}
+	// prefix operators in nud: the node of that operator over the parsed operand
+	nud := c.A.Nud
+	nsw, _ := c.switchLabels(nud, c.A.TokT)
+	wantPrefix := map[string]string{"tNot": "ASTNotExpression", "tExpref": "ASTExpRef"}
+	if nsw != nil {
+		for _, b := range nud.Blocks {
+			ret := blockReturn(b)
+			if ret == nil {
+				continue
+			}
+			cl := nsw.clauseAt(instrPos(ret))
+			if cl == nil || len(cl.Labels) == 0 {
+				continue
+			}
+			w, ok := wantPrefix[cl.Labels[0].Name]
+			if !ok {
+				continue
+			}
+			res := retResults(ret)
+			if sh := c.nodeShapeOf(res[0]); sh != nil && sh.Zero {
+				continue // error return
+			}
+			r.Instances++
+			key := fmt.Sprintf("nud|%s|return@%s", cl.Name(), c.symStr(res[0], 0))
+			pos := c.pos(ret.Pos())
+			bns, ok := c.builtNodes(res[0])
+			if !ok {
+				r.viol(key, pos, fname(nud), "the "+cl.Name()+" handler can return a node it did not build here ("+c.symStr(res[0], 0)+"): the prefix operator would vanish from the tree or be rewritten")
+				continue
+			}
+			bad, desc := "", ""
+			for _, bn := range bns {
+				sh := bn.shape
+				okKids := sh.Arity == 1 && len(sh.Elems) == 1 && c.valueIsParseResult(c.builtChild(bn, 0))
+				desc = sh.String()
+				if !(sh.NodeType == w && okKids) {
+					bad = fmt.Sprintf("the %s handler returns %s (type ok=%v, child is the parsed operand=%v)", cl.Name(), sh, sh.NodeType == w, okKids)
+				}
+			}
+			if bad == "" {
+				r.ok(key, pos, fname(nud), desc+" with the parsed operand as its only child")
+			} else {
+				r.viol(key, pos, fname(nud), bad)
+			}
 		}
 	}
 	return r
@@ -953,7 +1008,10 @@ func (c *Ctx) childValue(v ssa.Value, k int) ssa.Value {
 }
 
 func (c *Ctx) childIs(fn *ssa.Function, node ssa.Value, k int, param *ssa.Parameter, viaFlatten bool) bool {
-	v := c.childValue(node, k)
+	return c.valueIsParam(c.childValue(node, k), param, viaFlatten)
+}
+
+func (c *Ctx) valueIsParam(v ssa.Value, param *ssa.Parameter, viaFlatten bool) bool {
 	if v == nil {
 		return false
 	}
@@ -981,7 +1039,10 @@ func (c *Ctx) childIs(fn *ssa.Function, node ssa.Value, k int, param *ssa.Parame
 }
 
 func (c *Ctx) childIsParseResult(fn *ssa.Function, node ssa.Value, k int) bool {
-	v := c.childValue(node, k)
+	return c.valueIsParseResult(c.childValue(node, k))
+}
+
+func (c *Ctx) valueIsParseResult(v ssa.Value) bool {
 	ex, ok := v.(*ssa.Extract)
 	if !ok || ex.Index != 0 {
 		return false
@@ -992,4 +1053,87 @@ func (c *Ctx) childIsParseResult(fn *ssa.Function, node ssa.Value, k int) bool {
 	}
 	sc := staticCallee(call)
 	return sc == c.A.ParseExpr || sc == c.A.ParseDotRHS || sc == c.A.ParseProjRHS
+}
+
+// builtNode: a node value returned by a handler, followed through at most
+// one constructor helper (a library function that builds the node from its
+// parameters); child values are translated back to the caller's values.
+type builtNode struct {
+	val   ssa.Value
+	shape *NodeShape
+	subst map[*ssa.Parameter]ssa.Value // helper parameter -> caller argument
+}
+
+func (c *Ctx) builtNodes(v ssa.Value) ([]builtNode, bool) {
+	if sh := c.nodeShapeOf(v); sh != nil {
+		return []builtNode{{val: v, shape: sh}}, true
+	}
+	var call *ssa.Call
+	switch x := v.(type) {
+	case *ssa.Call:
+		call = x
+	case *ssa.Extract:
+		if x.Index == 0 {
+			call, _ = x.Tuple.(*ssa.Call)
+		}
+	}
+	if call == nil {
+		return nil, false
+	}
+	callee := staticCallee(call)
+	if callee == nil || callee.Pkg != c.SLib || callee.Blocks == nil || c.movesCursor(callee) {
+		return nil, false
+	}
+	subst := map[*ssa.Parameter]ssa.Value{}
+	for i, p := range callee.Params {
+		if i < len(call.Call.Args) {
+			subst[p] = call.Call.Args[i]
+		}
+	}
+	var out []builtNode
+	for _, b := range callee.Blocks {
+		ret := blockReturn(b)
+		if ret == nil {
+			continue
+		}
+		res := retResults(ret)
+		if len(res) == 0 || !c.isASTNode(res[0].Type()) {
+			return nil, false
+		}
+		sh := c.nodeShapeOf(res[0])
+		if sh == nil {
+			return nil, false
+		}
+		if sh.Zero {
+			continue
+		}
+		if sh.NodeTypeParam != nil {
+			if k, ok := constInt(subst[sh.NodeTypeParam]); ok {
+				cp := *sh
+				cp.NodeType = c.A.NTName[k]
+				sh = &cp
+			}
+		}
+		out = append(out, builtNode{val: res[0], shape: sh, subst: subst})
+	}
+	return out, len(out) > 0
+}
+
+// child: the caller-level value stored as child k.
+func (c *Ctx) builtChild(bn builtNode, k int) ssa.Value {
+	v := c.childValue(bn.val, k)
+	if v == nil || bn.subst == nil {
+		return v
+	}
+	for p, arg := range bn.subst {
+		if v == p {
+			return arg
+		}
+		if ld, ok := v.(*ssa.UnOp); ok {
+			if al, ok := ld.X.(*ssa.Alloc); ok && paramSpill(p) == al {
+				return arg
+			}
+		}
+	}
+	return v
 }
